@@ -241,6 +241,30 @@ def opParse (j : Json) : R Json := do
     reMatch := ← (← fldArr rj "matches").mapM (pairOf str str)
     overridden := ← fldBool rj "overridden"
     validate := ← fldBool rj "validate" }
+  let view (s : PState) (e : Option PErr) (logFrom : Nat) : Json := Json.mkObj [
+    ("log", Json.arr ((s.log.drop logFrom).map callbackJson).toArray),
+    ("err", perrJson e),
+    ("nEvents", s.nEvents),
+    ("typeCount", Json.arr (s.typeCount.map fun tc => jPair tc.1 tc.2).toArray),
+    ("sizes", Json.arr (s.sizes.map fun (p : Nat × Nat) => jPair (p.1 : Json) (p.2 : Json)).toArray),
+    ("children", s.children.length)]
+  match j.getObjVal? "docs" with
+  | .ok ds =>
+    -- one parser given several documents one after the other (`PState.nextDoc` in between)
+    let docs ← (← arr ds).mapM fun d => do
+      pure ((← (← fldArr d "items").mapM itemOf), (← fldBool d "versionOk"))
+    let rec go (s : PState) (first : Bool) : List (List Item × Bool) → List Json
+      | [] => []
+      | (items, vOk) :: rest =>
+        let s0 := if first then s else s.nextDoc
+        let from_ := s0.log.length
+        let (s1, e) := prun reg { s0 with sizes := [] } items
+        let e := match e with
+          | none => if vOk then none else some PErr.validation
+          | some x => some x
+        view s1 e from_ :: (match e with | none => go s1 false rest | some _ => [])
+    pure (Json.mkObj [("docs", Json.arr (go {} true docs).toArray)])
+  | .error _ =>
   let chunks ← (← fldArr j "chunks").mapM fun c => do (← arr c).mapM itemOf
   let rootEnd ← fldBool j "rootEnd"
   let versionOk ← fldBool j "versionOk"
@@ -248,13 +272,7 @@ def opParse (j : Json) : R Json := do
   let e := match e with
     | none => if rootEnd && !versionOk then some PErr.validation else none
     | some x => some x
-  pure (Json.mkObj [
-    ("log", Json.arr (s.log.map callbackJson).toArray),
-    ("err", perrJson e),
-    ("nEvents", s.nEvents),
-    ("typeCount", Json.arr (s.typeCount.map fun tc => jPair tc.1 tc.2).toArray),
-    ("sizes", Json.arr (s.sizes.map fun (p : Nat × Nat) => jPair (p.1 : Json) (p.2 : Json)).toArray),
-    ("children", s.children.length)])
+  pure (view s e 0)
 
 open Edxml.Gate in
 def gEventTypeOf (j : Json) : R GEventType := do
